@@ -20,10 +20,11 @@ type lenCfg struct {
 	PerProd int
 	Readers int
 	Extra   int // additional bound queues (kinds cycle)
+	Purges  int // concurrent Purge calls
 }
 
 func (c lenCfg) String() string {
-	return fmt.Sprintf("len wk=%v qk=%v conc=%d prods=%d per=%d readers=%d extra=%d", c.WK, c.QK, c.Conc, c.Prods, c.PerProd, c.Readers, c.Extra)
+	return fmt.Sprintf("len wk=%v qk=%v conc=%d prods=%d per=%d readers=%d extra=%d purges=%d", c.WK, c.QK, c.Conc, c.Prods, c.PerProd, c.Readers, c.Extra, c.Purges)
 }
 
 func epLen(c *RunCtx, cfg lenCfg) *Result {
@@ -76,11 +77,21 @@ func epLen(c *RunCtx, cfg lenCfg) *Result {
 					begun.Add(1)
 					k.Add(q, i)
 					// pace: wait for the job so that the queue hovers around empty
-					if h := k.Recs[i].H; h != nil && i%3 != 0 {
+					if h := k.Recs[i].H; h != nil && i%3 != 0 && cfg.Purges == 0 {
 						h.Wait()
 					}
 				}
 			}(p)
+		}
+		if cfg.Purges > 0 {
+			pwg.Add(1)
+			go func() {
+				defer pwg.Done()
+				for x := 0; x < cfg.Purges; x++ {
+					q.Base.Purge()
+					runtime.Gosched()
+				}
+			}()
 		}
 		pwg.Wait()
 		stop.Store(true)
@@ -117,9 +128,9 @@ func lenPrograms(c *RunCtx, nq, nt int) {
 		c.Program(fmt.Sprintf("len/%d", v), func(p *Prog) {
 			r := p.Rng
 			cfg := lenCfg{WK: Pick(r, WPlain, WErr, WResult), QK: Pick(r, QFifo, QFifo, QPrio), Conc: Pick(r, 1, 2, 4), Prods: Pick(r, 1, 2, 3),
-				PerProd: 10 + r.Intn(30), Readers: Pick(r, 2, 4), Extra: Pick(r, 0, 0, 1, 2)}
+				PerProd: 10 + r.Intn(30), Readers: Pick(r, 2, 4), Extra: Pick(r, 0, 0, 1, 2), Purges: Pick(r, 0, 0, 8, 30)}
 			p.Explore(func(pl Plan) *Result { return epLen(c, cfg) },
-				ExploreOpts{Base: 6, K: c.Q(3, 6), Funcs: []string{"Queue.Len", "Manager.Len", "PriorityQueue.Len", "Enqueue", "Dequeue", "NumPending"}, Pairs: c.Q(10, 60), MaxCases: c.Q(120, 1000)})
+				ExploreOpts{Base: 6, K: c.Q(3, 6), Funcs: []string{"Queue.Len", "Manager.Len", "PriorityQueue.Len", "Enqueue", "Dequeue", "NumPending", "Purge"}, Pairs: c.Q(10, 60), MaxCases: c.Q(120, 1000)})
 		})
 	}
 }
